@@ -142,3 +142,57 @@ pub fn lazy_get(flavour: bool, k: usize) -> Res {
     let after = crate::subject::count_notes_kind(20, id);
     Res::V((after > before) as u64)
 }
+
+// ------------------------------------------------------------------------------------------
+// hand-written models for C16: an initialiser that fails in some iterations (the panic is caught
+// inside the model) must leave nothing behind for the next iteration
+// ------------------------------------------------------------------------------------------
+
+thread_local! {
+    static INIT_FAILS: std::cell::Cell<bool> = const { std::cell::Cell::new(false) };
+}
+
+loom::lazy_static! {
+    static ref LZ_MAY_FAIL: u64 = {
+        if INIT_FAILS.with(|f| f.get()) {
+            panic!("VMC lazy initialiser fails in this iteration");
+        }
+        7
+    };
+}
+
+loom::thread_local! {
+    static TLS_MAY_FAIL: u64 = {
+        if INIT_FAILS.with(|f| f.get()) {
+            panic!("VMC thread-local initialiser fails in this iteration");
+        }
+        7
+    };
+}
+
+/// One iteration of a custom model; returns a short signature of what happened.
+/// `which`: 0 = lazy static touched by main, 1 = lazy static touched by a spawned thread,
+/// 2 = thread-local touched by main. Whether the initialiser fails depends on a race.
+pub fn failing_init_model(which: usize) -> String {
+    use loom::sync::atomic::{AtomicUsize, Ordering::SeqCst};
+    let a = loom::sync::Arc::new(AtomicUsize::new(0));
+    let a2 = a.clone();
+    let t = loom::thread::spawn(move || a2.store(1, SeqCst));
+    let fails = a.load(SeqCst) == 1;
+    let touch = move || -> String {
+        INIT_FAILS.with(|f| f.set(fails));
+        let r = std::panic::catch_unwind(|| if which == 2 { TLS_MAY_FAIL.with(|v| *v) } else { *LZ_MAY_FAIL });
+        INIT_FAILS.with(|f| f.set(false));
+        match r {
+            Ok(v) => format!("ok{}", v),
+            Err(_) => "init-panicked".to_string(),
+        }
+    };
+    let sig = if which == 1 {
+        loom::thread::spawn(touch).join().unwrap()
+    } else {
+        touch()
+    };
+    t.join().unwrap();
+    format!("fails={} {}", fails, sig)
+}
